@@ -389,9 +389,12 @@ prop('C19', obligations=['Props/C19.vo'],
           'times of day, known and unknown fixed-offset zones; DST zones, timeFormat, now/toDay judged on the implementation alone',
      trust=EV_TRUST + ['zones with daylight saving are outside the model (fixed offsets only)'])
 prop('C20', obligations=['Props/C20.vo'],
-     suites=[dict(name='runner', project=proj_history, definitive=True, what='history observations differ from the proved runner model')],
+     suites=[dict(name='runner', project=proj_history, definitive=True, what='history observations differ from the proved runner model'),
+             dict(name='evalcore', project=proj_eval_full, definitive=True, what='result, final data map or host calls of a single evaluation differ from the proved evaluator model')],
      rule='every operation sequence of length <= 3 over 21 operations (SetThis of 3 caller maps / nil, SetThisValue, Set, Get, caller '
-          'write, 9 formulas reading and assigning locals and fields) containing an observation; random histories of length 4..30', trust=EV_TRUST)
+          'write, 9 formulas reading and assigning locals and fields) containing an observation; random histories of length 4..30; '
+          'single evaluations of the evalcore suite (random programs, callee and member-access corner cases, mapToArr, roundCash) '
+          'compared in full: result, final data map, host calls', trust=EV_TRUST)
 
 
 prop('C08', obligations=['Props/C08.vo'],
